@@ -145,6 +145,9 @@ def r01_2(ctx: Ctx) -> None:
         for index, call in enumerate(sites):
             ctx.call_sites += 1
             first = arg_of(call, 0, "met")
+            if isinstance(first, ast.Name):
+                at_stmt = next((a for a in _ancestors(call) if isinstance(a, ast.stmt)), call)
+                first = inline_reaching(CFG(method), at_stmt, first, max_depth=0)   # a verdict named before it is returned
             idiom = _negation_idiom(first) if first is not None else None
             idioms.append(idiom)
             if exempt:
@@ -313,31 +316,21 @@ def r01_4_8(ctx: Ctx) -> None:
                "a cds(...) group can hold for a gene without any hit (negated inner terms), so the neighbour scan "
                "ranges over every gene in range (details.features_by_id), not only genes with hits",
                form=f"for {txt(loop.target)} in {txt(loop.iter)}")
-        # guard: in_range on all paths from the loop header to the evaluation
-        head = cfg.n(loop)
-        body = cfg.loop_body_nodes(loop)
-        wanted = []
-        skip_self = []
-        for nid in body:
-            node = cfg.nodes[nid].ast
-            if isinstance(node, ast.If):
-                test = node.test
-                inner = test.operand if isinstance(test, ast.UnaryOp) and isinstance(test.op, ast.Not) else test
-                if isinstance(inner, ast.Call) and last_attr(inner) == "in_range" and txt(inner.func.value) == "details":  # type: ignore
-                    wanted.append((nid, "F" if inner is not test else "T"))
-                    args = [txt(a) for a in inner.args]
-                    loopvars = {n.id for n in ast.walk(loop.target) if isinstance(n, ast.Name)}
-                    dep = any(loopvars & {n.id for n in ast.walk(a) if isinstance(n, ast.Name)} for a in inner.args)
-                    ctx.ob("R01.4", RP, node, qual, "in_range operands", dep and len(args) == 2,
-                           "the range test compares the focus gene with the scanned gene", form=txt(inner))
-                if isinstance(test, ast.Compare) and len(test.ops) == 1 and isinstance(test.ops[0], (ast.Eq, ast.NotEq)) \
-                        and "details.cds" in (txt(test.left), txt(test.comparators[0])):
-                    skip_self.append((nid, "F" if isinstance(test.ops[0], ast.Eq) else "T"))
-        target = cfg.n(call)
-        ok = bool(wanted) and cfg.guarded_on_all_paths(head, target, wanted, within=body | {head})
-        ctx.ob("R01.4", RP, call, qual, f"inner evaluation#{index} in range", ok,
+        # guard: on every path from the loop header to the evaluation the range test has come out true (whatever the
+        # spelling: its own `if`, an early `continue` on its negation, or one operand of a merged `and`)
+        from ..flow import path_facts as _facts
+        stmt_of_call = next(a for a in _ancestors(call) if isinstance(a, ast.stmt))
+        inside = [(e, t) for e, t in _facts(cfg, stmt_of_call) if any(a is loop for a in _ancestors(e))]
+        ranges = [e for e, t in inside if t and isinstance(e, ast.Call) and last_attr(e) == "in_range"
+                  and txt(e.func.value) == "details"]  # type: ignore[attr-defined]
+        loopvars = {n.id for n in ast.walk(loop.target) if isinstance(n, ast.Name)}
+        for inner in ranges:
+            dep = any(loopvars & {n.id for n in ast.walk(a) if isinstance(n, ast.Name)} for a in inner.args)
+            ctx.ob("R01.4", RP, inner, qual, "in_range operands", dep and len(inner.args) == 2,
+                   "the range test compares the focus gene with the scanned gene", form=txt(inner))
+        ctx.ob("R01.4", RP, call, qual, f"inner evaluation#{index} in range", bool(ranges),
                "every path from the scan's loop header to the neighbour evaluation passes details.in_range(...) == True",
-               form=f"guards={[(getattr(cfg.nodes[n].ast, 'lineno', 0), lab) for n, lab in wanted]}")
+               form="; ".join(("" if t else "not ") + txt(e)[:60] for e, t in inside))
         gene = txt(det.args[0]) if is_just and det.args else ""  # type: ignore[union-attr]
         loopvars = {n.id for n in ast.walk(loop.target) if isinstance(n, ast.Name)}
         ctx.ob("R01.4", RP, call, qual, f"inner evaluation#{index} scanned gene", gene in loopvars,
@@ -348,7 +341,10 @@ def r01_4_8(ctx: Ctx) -> None:
     for loop in mloops:
         base = loop.iter.func.value if isinstance(loop.iter, ast.Call) and isinstance(loop.iter.func, ast.Attribute) else loop.iter
         if dotted(base) in NEIGHBOUR_SOURCES:
-            uses_in_range = any(last_attr(c) == "in_range" for c in calls(loop))
+            from ..flow import path_facts as _facts2
+            mcfg = CFG(mfunc)
+            uses_in_range = any(last_attr(c) == "in_range" for c in calls(loop)) or \
+                any(t and isinstance(e, ast.Call) and last_attr(e) == "in_range" for e, t in _facts2(mcfg, loop))
             ctx.ob("R01.8", RP, loop, "MinimumCondition.is_satisfied", "neighbour scan guarded", uses_in_range,
                    "minimum() counts only genes inside the cutoff", form=f"for {txt(loop.target)} in {txt(loop.iter)}")
     for cls_name in ("SingleCondition", "ScoreCondition"):
@@ -426,8 +422,14 @@ def _fold(ctx: Ctx, qual: str, kind: str) -> None:
         for upd in updates:
             forms.append(stmt_key(upd))
             if isinstance(upd, (ast.Assign, ast.AnnAssign)) and isinstance(upd.value, ast.Constant):
-                init_ok = upd.value.value is (kind == "and")
-                if not init_ok:
+                if upd.value.value is (kind == "and"):
+                    init_ok = True
+                    continue
+                # the absorbing constant assigned under the fact that a sub-verdict is that constant
+                # (`if not result.met: met = False`) is the same step as `met = met and result.met`
+                from ..flow import path_facts as _pf
+                absorbed = any(txt(e).endswith(".met") and truth == (kind != "and") for e, truth in _pf(fcfg, upd, fresh_only=True))
+                if not absorbed:
                     step_ok = False
                 continue
             if isinstance(upd, ast.AugAssign):
@@ -497,8 +499,14 @@ def r01_5(ctx: Ctx) -> None:
            "a group with one operand is that operand's verdict", form=stmt_key(first) if singles else "")
     base = ctx.fn(RP, "Conditions.is_satisfied")
     site = _condition_met_calls(base)
-    ok = len(site) == 1 and _negation_idiom(arg_of(site[0], 0, "met")) == "xor" and \
-        txt(arg_of(site[0], 0, "met")) in ("xor(self.negated, subs.met)", "xor(subs.met, self.negated)")
+    group_verdict = None
+    if len(site) == 1:
+        at_stmt = next((a for a in _ancestors(site[0]) if isinstance(a, ast.stmt)), site[0])
+        group_verdict = arg_of(site[0], 0, "met")
+        if isinstance(group_verdict, ast.Name):   # a verdict named before it is returned: read one step through
+            group_verdict = inline_reaching(CFG(base), at_stmt, group_verdict, max_depth=0)
+    ok = len(site) == 1 and _negation_idiom(group_verdict) == "xor" and \
+        txt(group_verdict) in ("xor(self.negated, subs.met)", "xor(subs.met, self.negated)")
     ctx.ob("R01.5", RP, base, "Conditions.is_satisfied", "group negation", ok,
            "a (possibly negated) group is xor(negated, verdict of its sub-conditions)",
            form=txt(site[0]) if site else "")
